@@ -54,6 +54,29 @@ func GenC13Project(r *core.Rng, c *Corpus) (Project, string) {
 		p = GenProject(r, core.Pick(r, []string{"ok", "ok", "errors", "cycle"}))
 		desc = append(desc, "generated")
 	}
+	// one well-formed slip in an otherwise untouched project: a second default arm,
+	// a repeated variant / field / declaration (the only error comes from a late phase)
+	if r.Chance(1, 6) {
+		names := core.SortedKeys(p.Files)
+		var cand [][2]int // file index, line
+		for fi, n := range names {
+			for li, l := range strings.Split(p.Files[n], "\n") {
+				t := strings.TrimSpace(l)
+				if strings.HasPrefix(t, "_ =>") || (strings.Contains(t, "=>") && strings.HasSuffix(t, "}")) {
+					cand = append(cand, [2]int{fi, li})
+				}
+			}
+		}
+		if len(cand) > 0 {
+			c := core.Pick(r, cand)
+			lines := strings.Split(p.Files[names[c[0]]], "\n")
+			out := append([]string{}, lines[:c[1]+1]...)
+			out = append(out, lines[c[1]])
+			out = append(out, lines[c[1]+1:]...)
+			p.Files[names[c[0]]] = strings.Join(out, "\n")
+			return p, strings.Join(append(desc, fmt.Sprintf("%s:repeat-arm(%d)", names[c[0]], c[1]+1)), ",")
+		}
+	}
 	nd := 0
 	switch x := r.Intn(10); {
 	case x < 1:
@@ -148,7 +171,7 @@ func Damage(r *core.Rng, src string) (string, string) {
 		}
 		return ix
 	}
-	switch op := r.Intn(20); op {
+	switch op := r.Intn(23); op {
 	case 0: // truncate at a byte
 		if len(src) == 0 {
 			return src, "truncate(empty)"
@@ -384,6 +407,44 @@ func Damage(r *core.Rng, src string) (string, string) {
 		}
 		out := strings.Join(toks[:c[0]+1], "") + repl + strings.Join(toks[c[1]:], "")
 		return out, fmt.Sprintf("arity(%d)", kind)
+	case 20, 21: // a well-formed line twice: a second default arm, enum variant, field, import, declaration
+		lines := strings.Split(src, "\n")
+		var pref []int
+		for i, l := range lines {
+			t := strings.TrimSpace(l)
+			if strings.Contains(t, "=>") || strings.HasPrefix(t, "_") || strings.HasPrefix(t, ".") || strings.HasPrefix(t, "import") || strings.HasPrefix(t, "let ") {
+				pref = append(pref, i)
+			}
+		}
+		i := r.Intn(len(lines))
+		if len(pref) > 0 && r.Chance(3, 4) {
+			i = core.Pick(r, pref)
+		}
+		out := append([]string{}, lines[:i+1]...)
+		out = append(out, lines[i])
+		out = append(out, lines[i+1:]...)
+		return strings.Join(out, "\n"), fmt.Sprintf("duplicate-line(%d)", i+1)
+	case 22: // a type name nobody declared, in a type position (after ':' or '->')
+		var pos []int
+		for i := 0; i < len(toks); i++ {
+			if toks[i] != ":" && toks[i] != "->" {
+				continue
+			}
+			j := i + 1
+			for j < len(toks) && strings.TrimSpace(toks[j]) == "" {
+				j++
+			}
+			if j < len(toks) && toks[j] != "" && (toks[j][0] == '_' || unicode.IsLetter(rune(toks[j][0]))) {
+				pos = append(pos, j)
+			}
+		}
+		if len(pos) == 0 {
+			return src, "noop"
+		}
+		j := core.Pick(r, pos)
+		old := toks[j]
+		toks[j] = core.Pick(r, []string{"Zq9Type", "Nope", "i33", "string"})
+		return strings.Join(toks, ""), fmt.Sprintf("unknown-type(%s->%s)", trunc(old, 10), toks[j])
 	default: // join two statements / split a line
 		lines := strings.Split(src, "\n")
 		if len(lines) < 2 {
